@@ -74,8 +74,22 @@ def r072(ctx):
     b["adjust"] = adj
     spec = A.entry(r, "self.tags.apply(lambda row: adjust[row[_GROUP_ID]], axis=1)", b)
     specs = [spec, A.entry(r, "self.tags[_GROUP_ID].map(adjust)", b), A.entry(r, "self.tags[_GROUP_ID].map(lambda g: adjust[g])", b)]
-    A.formula("R07.2", r.func, None, r.ret, specs, "group-loss signed_weights", construct="ConditionalLossMoment.signed_weights formula")
     rl = A.run(cls + ".load_data", cls_ctx=cls)
+    # a fast path for the single-stratum moment (no_groups): every row then carries the group id _ALL - provided load_data replaces
+    # the sensitive features by that constant exactly when no_groups - so looking the factor up once is the same function
+    sup = [e for e in rl.events if e.kind == "call" and str(e.data.get("callee", "")).endswith(":LossMoment.load_data")
+           or (e.kind == "call" and e.data["fterm"].op == "attr" and e.data["fterm"].args[1] == "load_data" and e.func == rl.func)]
+    const_all = False
+    for e in sup:
+        sf = kw(e, "sensitive_features")
+        if sf is not None and sf.op == "ite" and A.eq(sf.args[0], A.entry(rl, "self.no_groups")):
+            v_ = sf.args[1]
+            const_all = v_.op == "call" and v_.args[0].op == "attr" and v_.args[0].args[1] in ("apply", "map") and len(v_.args[1]) == 1 \
+                and v_.args[1][0].op == "lam" and A.eq(v_.args[1][0].args[1], A.entry(rl, "_ALL"))
+    if const_all:
+        b1 = dict(b)
+        specs.append(mk("ite", A.entry(r, "self.no_groups"), A.entry(r, "self.tags.apply(lambda row: adjust[_ALL], axis=1)", b1), spec))
+    A.formula("R07.2", r.func, None, r.ret, specs, "group-loss signed_weights", construct="ConditionalLossMoment.signed_weights formula")
     for e in stores_attr(rl, "prob_attr"):
         A.formula("R07.2", e.func, e.node, e.data["value"], A.at(e, "self.tags.groupby(_GROUP_ID).size() / self.total_samples"),
                   "P(g) definition", construct="prob_attr definition")
